@@ -146,7 +146,7 @@ fn main() {
     // watchdog: a run that exceeds its wall budget is a machinery failure, never a verdict
     {
         let limit = std::env::var("WAXMC_WALL_LIMIT_S").ok().and_then(|s| s.parse::<u64>().ok()).unwrap_or(match tier {
-            Tier::Quick => 600,
+            Tier::Quick => 1200,
             Tier::Thorough => 3 * 3600,
         });
         std::thread::spawn(move || {
